@@ -15,7 +15,7 @@ import corerun
 
 SIGS = [10, 12]
 MODELS = {
-    "C10": [("MC_Signal.tla", "MC_Signal.cfg")],
+    "C10": [("MC_Signal.tla", "MC_Signal.cfg"), ("MC_SignalFork.tla", "MC_SignalFork.cfg")],
     "C11": [("MC_Wait.tla", "MC_Wait.cfg")],
     "C19": [("IvPopen.tla", "MC_Popen_exit.cfg"), ("IvPopen.tla", "MC_Popen_ignore.cfg"), ("IvPopen.tla", "MC_Popen_after-n.cfg")],
 }
@@ -385,6 +385,14 @@ def run(pid, tier, seed, replay=None):
         dead = [a for a, taken in covall.items() if taken == 0]
         if dead:
             raise vlib.MachineryError("model actions never taken: %s" % dead)
+        if pid == "C10" and not replay:
+            # the fork model is not vacuous: each of the three guards of the code, taken away, is refuted
+            for v in ("no-thr-reset", "no-proc-reset", "no-owner-check"):
+                r = vlib.tlc("MC_SignalFork.tla", "MC_SignalFork_v_%s.cfg" % v, sc, workers=2, timeout=600)
+                if "NoViolation" not in r["violated"]:
+                    raise vlib.MachineryError("fork model variant %s is not refuted\n%s" % (v, r["out"][-1500:]))
+                runs.append({"module": "MC_SignalFork.tla", "cfg": "MC_SignalFork_v_%s.cfg" % v, "expected": "refuted", "refuted": True,
+                             "distinct": r["distinct"], "generated": r["generated"], "depth": r["depth"]})
         bad = collections.OrderedDict()
         nontrivial, seen_rules = set(), collections.Counter()
         for v in verdicts:
